@@ -522,6 +522,10 @@ macro_rules! impl_io_uring {
             ) -> std::io::Result<Arc<(Mutex<Option<c_longlong>>, Condvar)>> {
                 let token = EventLoop::token(SyscallName::$syscall);
                 self.operator.$syscall(token, $($arg, )*)?;
+                // verification hook: pause/observe point between handing the request to the
+                // kernel and registering the slot its completion is delivered to
+                #[cfg(feature = "verif")]
+                crate::verif::point("io_uring_between_submit_and_register", token, 0);
                 let arc = Arc::new((Mutex::new(None), Condvar::new()));
                 assert!(
                     self.syscall_wait_table.insert(token, arc.clone()).is_none(),
